@@ -145,7 +145,7 @@ def attribute(forms, kind, unit, as_module):
     ptxt = str((unit or {}).get("panics")) + kind
     if "jit2/cgen.rs" in ptxt and "not yet implemented" in ptxt:
         return "F09 native code generator reaches todo!() (ALLOC/READALLOC/SETALLOC: set! of a let-bound variable in an internal define) and poisons the JIT lock"
-    if "PoisonError" in ptxt:
+    if "PoisonError" in ptxt or "Deprecated now - this shouldn't be hit" in ptxt:
         return "F09 native code generator reaches todo!() (ALLOC/READALLOC/SETALLOC: set! of a let-bound variable in an internal define) and poisons the JIT lock"
     if "succeeds where the reference raises" in kind:
         def used(name, body):
